@@ -16,7 +16,7 @@ package wire
 //@   ensures [failed] result != nil ==> (#nZ == old(#nZ) && #nE == old(#nE) && #nOut == old(#nOut) && #last == old(#last) && #cyc == old(#cyc) && #failed)
 //@   ensures [E-kept] #E_mask == old(#E_mask) && #E_S == old(#E_S) && #E_C == old(#E_C) && #E_M == old(#E_M) && #E_D == old(#E_D) && #E_H == old(#E_H) && #E_F == old(#E_F) && #E_L == old(#E_L) && #E_R == old(#E_R) && #E_n == old(#E_n)
 //@   ensures [fail-stop] old(#failed) ==> result != nil
-//@   ensures [err-kind] result != nil ==> !isExceeded(result)
+//@   ensures [err-kind] result != nil ==> SinkErr(result)
 //@   ensures [writer-reset] writer.err == nil && writer.frame.#blen == 0
 //@   modifies WriterState(writer), Out()
 
@@ -26,7 +26,7 @@ package wire
 //@   ensures [one-R] result == nil ==> (#nOut == old(#nOut) + 1 && #last == 'R' && #nZ == old(#nZ) && #nE == old(#nE) && #cyc == old(#cyc) && #failed == old(#failed) && #authR == status)
 //@   ensures [failed] result != nil ==> (#nZ == old(#nZ) && #nE == old(#nE) && #nOut == old(#nOut) && #failed && #authR == old(#authR))
 //@   ensures [fail-stop] old(#failed) ==> result != nil
-//@   ensures [err-kind] result != nil ==> !isExceeded(result)
+//@   ensures [err-kind] result != nil ==> SinkErr(result)
 //@   ghostset #authR = status if result == nil
 //@   modifies WriterState(writer), Out(), #authR
 
@@ -46,7 +46,7 @@ package wire
 //@   ensures [E-then-Z] result == nil ==> (#nE == old(#nE) + 1 && #nZ == old(#nZ) + 1 && #nOut == old(#nOut) + 2 && #last == 'Z' && #cyc == cycStep(cycStep(old(#cyc), 'E'), 'Z') && #failed == old(#failed))
 //@   ensures [failed] result != nil ==> (#failed && #nZ == old(#nZ) && old(#nE) <= #nE && #nE <= old(#nE) + 1 && old(#nOut) <= #nOut && #nOut <= old(#nOut) + 1)
 //@   ensures [fail-stop] old(#failed) ==> result != nil
-//@   ensures [err-kind] result != nil ==> !isExceeded(result)
+//@   ensures [err-kind] result != nil ==> SinkErr(result)
 //@   ensures [nil-internal-fatal] {C17} (result == nil && err == nil) ==> (#E_S == "FATAL" && #E_C == "XX000" && #E_M == "unknown error, an internal process attempted to throw an error" && #E_mask == 7)
 //@   ensures [field-severity] {C17} (result == nil && err != nil) ==> #E_S == (specSeverity(err) == "" ? "ERROR" : specSeverity(err))
 //@   ensures [field-code] {C17} (result == nil && err != nil) ==> #E_C == specCode(err)
@@ -57,7 +57,7 @@ package wire
 //@   ensures [field-constraint] {C17} (result == nil && err != nil) ==> (hasbit(#E_mask, 256) <==> specConstraint(err) != "") && (specConstraint(err) != "" ==> #E_n == specConstraint(err))
 //@   ensures [mandatory] {C17 C02} result == nil ==> (hasbit(#E_mask, 1) && hasbit(#E_mask, 2) && hasbit(#E_mask, 4))
 //@   ensures [writer-reset] writer.err == nil && writer.frame.#blen == 0
-//@   modifies WriterState(writer), Out(), #maxalloc, #nalloc
+//@   modifies WriterState(writer), Out()
 
 // ---- connection context -----------------------------------------------------
 
@@ -137,7 +137,7 @@ package wire
 //@   ensures [one-T] (len(columns) > 0 && result == nil) ==> (#nOut == old(#nOut) + 1 && #last == 'T' && #nZ == old(#nZ) && #nE == old(#nE) && #cyc == cycStep(old(#cyc), 'T') && #failed == old(#failed))
 //@   ensures [failed] result != nil ==> (#nOut == old(#nOut) && #nZ == old(#nZ) && #nE == old(#nE) && #cyc == old(#cyc) && #failed)
 //@   ensures [fail-stop] (old(#failed) && len(columns) > 0) ==> result != nil
-//@   ensures [err-kind] result != nil ==> !isExceeded(result)
+//@   ensures [err-kind] result != nil ==> SinkErr(result)
 //@   callsite (wire.Column).Define [same-format] {C08 C09} $format == selFmt(formats0, index)
 //@   modifies WriterState(writer), Out()
 //@   loop 0
@@ -272,10 +272,13 @@ package wire
 //@   ensures [zero-oids] each(result, p, p == 0)
 //@   atreturn [count-anonymous] maxPos(matches, len(matches)) == 0 ==> len(result) == anonCount(matches, len(matches))
 //@   atreturn [count-positional] anonCount(matches, len(matches)) == 0 ==> len(result) == maxPos(matches, len(matches))
-//@   atreturn [bounded] len(result) <= anonCount(matches, len(matches)) + 65535 && cap(result) <= 2 * (len(matches) + 65535)
-//@   modifies nothing
+//@   atreturn [bounded] len(result) <= anonCount(matches, len(matches)) + 65535 && anonCount(matches, len(matches)) <= len(matches)
+//@   atreturn [bounded-alloc] #maxalloc <= max(old(#maxalloc), 8 * (len(matches) + 65535) + 256)
+//@   modifies #maxalloc, #nalloc
 //@   loop 0
 //@     invariant [range] -1 <= $index && $index + 1 <= len(matches)
+//@     invariant [anon-le] anonCount(matches, $index + 1) <= $index + 1
+//@     invariant [bounded-alloc] #maxalloc <= max(old(#maxalloc), 8 * (len(matches) + 65535) + 256)
 //@     invariant [lower] len(parameters) >= maxPos(matches, $index + 1)
 //@     invariant [upper] len(parameters) <= maxPos(matches, $index + 1) + anonCount(matches, $index + 1)
 //@     invariant [anon-nonneg] anonCount(matches, $index + 1) >= 0 && maxPos(matches, $index + 1) >= 0 && maxPos(matches, $index + 1) <= 65535
@@ -510,10 +513,10 @@ package wire
 
 //@ func singleStatement
 //@   props C06 C04
-//@   requires [stmts-ok] each(stmts, s, s != nil && s.fn != nil)
+//@   requires [stmts-ok] each(stmts, s, s != nil && s.fn != nil && len(s.parameters) <= 65535)
 //@   requires err != nil ==> (ErrTextOK(err) && !isExceeded(err))
 //@   ensures [passes-error] err != nil ==> (result.0 == nil && result.1 == err)
-//@   ensures [exactly-one] result.1 == nil ==> (err == nil && len(stmts) == 1 && result.0 == stmts[0] && result.0 != nil && result.0.fn != nil)
+//@   ensures [exactly-one] result.1 == nil ==> (err == nil && len(stmts) == 1 && result.0 == stmts[0] && result.0 != nil && result.0.fn != nil && len(result.0.parameters) <= 65535)
 //@   ensures [otherwise-error] (err == nil && len(stmts) != 1) ==> result.1 != nil
 //@   ensures [err-text] result.1 != nil ==> (ErrTextOK(result.1) && !isExceeded(result.1))
 //@   modifies nothing
@@ -532,7 +535,7 @@ package wire
 //@   requires [count16] {C02} len(parameters) <= 65535
 //@   ensures [one-t] result == nil ==> (#nOut == old(#nOut) + 1 && #last == 't' && #nZ == old(#nZ) && #nE == old(#nE) && #failed == old(#failed))
 //@   ensures [failed] result != nil ==> (#nOut == old(#nOut) && #nZ == old(#nZ) && #nE == old(#nE) && #failed)
-//@   ensures [err-kind] result != nil ==> !isExceeded(result)
+//@   ensures [err-kind] result != nil ==> SinkErr(result)
 //@   callsite (*buffer.Writer).AddInt16 [announces-len] {C08 C20} $i == wrap16(len(parameters))
 //@   callsite (*buffer.Writer).AddInt32 [announces-oid] {C08 C20} $i == wrap32(parameter)
 //@   modifies WriterState(writer), Out()
@@ -548,7 +551,7 @@ package wire
 //@   requires WriterReady(writer)
 //@   ensures [one-T-or-n] result == nil ==> (#nOut == old(#nOut) + 1 && (#last == 'T' || #last == 'n') && (#last == 'n' <==> len(columns) == 0) && #nZ == old(#nZ) && #nE == old(#nE) && #failed == old(#failed))
 //@   ensures [failed] result != nil ==> (#nOut == old(#nOut) && #nZ == old(#nZ) && #nE == old(#nE) && #failed)
-//@   ensures [err-kind] result != nil ==> !isExceeded(result)
+//@   ensures [err-kind] result != nil ==> SinkErr(result)
 //@   callsite (wire.Columns).Define [passes-formats] {C08} $formats == formats && $columns == columns
 //@   modifies WriterState(writer), Out()
 
@@ -601,3 +604,88 @@ package wire
 //@     invariant [decoder] forall j :: (0 <= j && j < i) ==> parameters[j].types == TypeMapOf(ctx)
 //@     invariant [alloc-bound] #maxalloc <= max(old(#maxalloc), 48 * 65535)
 //@     decreases length - i
+
+//@ func handleMessageSizeExceeded
+//@   props C10 C06 C04
+//@   ghostparam wa wi
+//@   requires ReaderOK(reader) && WriterReady(writer) && exceeded != nil && ErrTextOK(exceeded)
+//@   ensures [not-exceeded-passthrough] !isExceeded(exceeded) ==> (err == exceeded && OutSame())
+//@   ensures [skip-report-continue] {C10} (isExceeded(exceeded) && err == nil) ==> (reader.Buffer.#pos == old(reader.Buffer.#pos) + max(excSize(exceeded), 0) && #nE == old(#nE) + 1 && #E_C == specCode(exceeded) && #E_S == (specSeverity(exceeded) == "" ? "ERROR" : specSeverity(exceeded)))
+//@   ensures [ok] ReaderOK(reader)
+//@   ensures [alloc-bound] {C04 C10} #maxalloc <= max(old(#maxalloc), max(reader.MaxMessageSize, 4096))
+//@   ensures [no-overwrite] {C18} (wa <= old(#alloc) && Exposed(old(reader.Msg), wa, wi)) ==> (mem(wa, wi) == old(mem(wa, wi)) && Exposed(reader.Msg, wa, wi))
+//@   modifies reader.Buffer.#pos, reader.Msg, memtail(reader.Msg), WriterState(writer), Out()
+
+//@ func (*Session).handleSimpleQuery
+//@   props C05 C02 C04
+//@   requires HOK(srv, reader, writer, ctx)
+//@   requires [cycle-idle] #cyc == 0
+//@   ensures [one-Z-last] {C05} result == nil ==> (#nZ == old(#nZ) + 1 && #last == 'Z' && #cyc == 3)
+//@   ensures [error-once] {C05} #nE <= old(#nE) + 1 && #nE >= old(#nE)
+//@   ensures [no-Z-on-failure] {C05} result != nil ==> #nZ == old(#nZ)
+//@   ensures [err-kind] result != nil ==> !isExceeded(result)
+//@   atreturn [blank-I-Z] {C05} (result == nil && Value_trim(query) == "") ==> (#nParse == old(#nParse) && #nExec == old(#nExec) && #nOut == old(#nOut) + 2 && #nE == old(#nE))
+//@   atreturn [parser-error-E-Z] {C05} (result == nil && Value_trim(query) != "" && #nParse == old(#nParse) + 1 && #nExec == old(#nExec)) ==> (#nE == old(#nE) + 1 || len(statements) > 0)
+//@   callsite callback:wire.ParseFn [query-exact] {C03 C05} $query == query && $ctx == ctx
+//@   callsite callback:wire.PreparedStatementFn [stmt-args] {C05} $ctx == ctx && $self == statements[index].fn && len($parameters) == 0 && cast($writer, "*wire.dataWriter").client == writer && cast($writer, "*wire.dataWriter").columns == statements[index].columns
+//@   modifies ConnEffects(srv, reader, writer, ctx)
+//@   loop 0
+//@     invariant [ok] HOK(srv, reader, writer, ctx)
+//@     invariant [range] -1 <= $index && $index + 1 <= len(statements)
+//@     invariant [cycle] #cyc == 0 && #nZ == old(#nZ) && #nE == old(#nE)
+//@     invariant [stmts-ok] each(statements, s, s != nil && s.fn != nil && len(s.parameters) <= 65535)
+//@     invariant [counts] #nParse == old(#nParse) + 1 && #nExec == old(#nExec) + $index + 1
+//@     invariant [window] Advanced(reader.Msg, old(reader.Msg)) || arr(reader.Msg) > old(#alloc)
+//@     decreases len(statements) - $index
+
+//@ func (*Session).handleParse
+//@   props C06 C07 C02 C04
+//@   requires HOK(srv, reader, writer, ctx)
+//@   ensures [P-reply] {C06} (result == nil && #nE == old(#nE)) ==> (#nOut == old(#nOut) + 1 && #last == '1')
+//@   ensures [P-error-once] {C06} #nE <= old(#nE) + 1 && #nE >= old(#nE)
+//@   ensures [no-Z-unless-Sync] {C06} #nZ == old(#nZ)
+//@   ensures [err-kind] result != nil ==> !isExceeded(result)
+//@   callsite iface:wire.StatementCache.Set [stores-under-name] {C07} $name == name && $fn == statement && $ctx == ctx
+//@   callsite callback:wire.ParseFn [query-exact] {C03 C06} $query == query && $ctx == ctx
+//@   atreturn [name-is-first-string] {C07} name == cstr(arr(old(reader.Msg)), off(old(reader.Msg)))
+//@   modifies ConnEffects(srv, reader, writer, ctx)
+//@   loop 0
+//@     invariant [range] 0 <= i && i <= parameters
+//@     decreases parameters - i
+
+//@ func (*Session).handleDescribe
+//@   props C06 C07 C08 C02 C04
+//@   requires HOK(srv, reader, writer, ctx)
+//@   requires [caches-wellformed] forall k :: mapdom(DPC(srv.Portals).portals, k) ==> (DPC(srv.Portals).portals[k] != nil && DPC(srv.Portals).portals[k].statement != nil)
+//@   ensures [D-error-once] {C06} #nE <= old(#nE) + 1 && #nE >= old(#nE)
+//@   ensures [no-Z-unless-Sync] {C06} #nZ == old(#nZ)
+//@   ensures [err-kind] result != nil ==> !isExceeded(result)
+//@   atreturn [D-statement-reply] {C06} (result == nil && #nE == old(#nE) && old(mem(arr(reader.Msg), off(reader.Msg))) == 'S') ==> (#nOut == old(#nOut) + 2 && (#last == 'T' || #last == 'n'))
+//@   atreturn [D-portal-reply] {C06} (result == nil && #nE == old(#nE) && old(mem(arr(reader.Msg), off(reader.Msg))) == 'P') ==> (#nOut == old(#nOut) + 1 && (#last == 'T' || #last == 'n'))
+//@   atreturn [unknown-name-E] {C06} (result == nil && #nOut == old(#nOut)) ==> false
+//@   callsite iface:wire.StatementCache.Get [by-name] {C07} $name == name
+//@   callsite iface:wire.PortalCache.Get [by-name] {C07} $name == name
+//@   callsite (*wire.Session).writeParameterDescription [declared-parameters] {C08 C20} $parameters == statement.parameters
+//@   callsite (*wire.Session).writeColumnDescription [statement-columns] {C08 C07} $columns == statement.columns && len($formats) == 0
+//@   callsite (*wire.Session).writeColumnDescription [portal-formats] {C08 C07} $columns == portal.statement.columns && $formats == portal.formats
+//@   modifies ConnEffects(srv, reader, writer, ctx)
+
+//@ func (*Session).handleBind
+//@   props C06 C07 C08 C18 C02 C04
+//@   requires HOK(srv, reader, writer, ctx)
+//@   ensures [B-reply] {C06} result == nil ==> (#nOut == old(#nOut) + 1 && #last == '2' && #nE == old(#nE))
+//@   ensures [B-no-error-reply] {C06} #nE == old(#nE)
+//@   ensures [no-Z-unless-Sync] {C06} #nZ == old(#nZ)
+//@   atreturn [unknown-name-E] {C06} stmt == nil ==> #nE == old(#nE) + 1
+//@   callsite iface:wire.StatementCache.Get [by-name] {C07} $name == statement
+//@   callsite iface:wire.PortalCache.Bind [passes] {C07 C08} $name == name && $statement == stmt && $parameters == parameters && $columns == formats && $ctx == ctx
+//@   modifies ConnEffects(srv, reader, writer, ctx)
+
+//@ func (*Session).handleExecute
+//@   props C06 C07 C05 C02 C04
+//@   requires HOK(srv, reader, writer, ctx)
+//@   ensures [E-error-once] {C06} #nE <= old(#nE) + 1 && #nE >= old(#nE)
+//@   ensures [no-Z-unless-Sync] {C06} #nZ == old(#nZ)
+//@   ensures [err-kind] result != nil ==> !isExceeded(result)
+//@   callsite iface:wire.PortalCache.Execute [by-name] {C07} $name == name && $reader == reader && $writer == writer && $ctx == ctx
+//@   modifies ConnEffects(srv, reader, writer, ctx)
